@@ -269,6 +269,12 @@ def gen_program(rng, prop, name, world, tier, no_chdir=False):
                     prog.append({"op": "cli.refill", "system": world["static"]["system"], "src": "f0", "store": "f1", "flags": [],
                                  "expect_ok": world["static"]["cli_ok"]})
         if prop == "C19":
+            # some requests in the middle of the write history (read-your-writes while the history goes on), the rest at the end
+            base_prog, prog = prog, []
+            for op in base_prog:
+                prog.append(op)
+                if op["op"] in ("calc.write", "cli.run") and rng.random() < 0.3:
+                    prog += gen_extract_ops(rng, name, world, tier, prog, 1, 2)
             if cur_dir != world["cwd"] and rng.random() < 0.5:
                 prog.append({"op": "env.chdir", "to": world["cwd"]})     # back home, where the earlier tables (and the stub tables) are
                 prog += gen_extract_ops(rng, name, world, tier, [o for o in prog if o["op"] != "env.chdir"])
@@ -349,10 +355,33 @@ def gen_program_c09(rng, name, world, tier):
     canon = {"extra_col": rng.choice([None, "V", "tail"])}
     prog.append({"op": "fill.call", "target": system, "present": dict(canon), "flags": flags, "expect_ok": True})
     ref = 0
-    variants = rng.sample(["perm", "upper", "int", "path", "abspath", "nopath", "cli", "calc", "again"], rng.randint(3, 6))
+    variants = rng.sample(["perm", "upper", "int", "path", "abspath", "nopath", "cli", "calc", "again", "norank", "noresid", "wrongsys", "wrongsys"], rng.randint(3, 7))
     for v in variants:
         pres = dict(canon)
-        if v == "perm":
+        if v == "norank" and system != "triclinic":
+            # clear-cut under-determination: every member of one relation class is missing
+            grp = rng.choice(W.GROUPS[system])
+            pres["drop_keys"] = list(grp)
+            prog.append({"op": "fill.call", "target": system, "present": pres, "flags": flags, "must_refuse": "rank"})
+            prog.append({"op": "fill.call", "target": system, "present": dict(pres), "flags": dict(flags, ignore_rank=True), "must_not_refuse": "rank"})
+        elif v == "noresid" and system != "triclinic":
+            # clear-cut inconsistency: two supplied members of one relation class disagree by 5 GPa or more
+            cands = [g for g in W.GROUPS[system] if len([k for k in g if k in st["keys"]]) >= 2]
+            if cands:
+                g = rng.choice(cands)
+                k = rng.choice([x for x in g if x in st["keys"]])
+                pres["perturb"] = {k: rng.choice([-1, 1]) * rng.choice([5.0, 12.0, 40.0])}
+                prog.append({"op": "fill.call", "target": system, "present": pres, "flags": flags, "must_refuse": "residual"})
+                prog.append({"op": "fill.call", "target": system, "present": dict(pres), "flags": dict(flags, ignore_residuals=True), "must_not_refuse": "residual"})
+        elif v == "wrongsys":
+            # a call with another crystal system (accepted or refused, whichever), after which the caller re-uses the SAME table object
+            # with the right system: a refused call must have left the table untouched
+            other = rng.choice([x for x in SYSTEM_NAMES if x not in (system, "triclinic")])
+            fid = "t%d" % len(prog)
+            prog.append({"op": "fill.call", "target": other, "present": dict(canon), "flags": flags, "keep_frame": fid})
+            prog.append({"op": "fill.call", "target": system, "present": dict(canon), "flags": flags, "use_frame": fid, "ref": ref,
+                         "ref_what": "the same table object after a call with another crystal system that was refused", "expect_ok": True})
+        elif v == "perm":
             perm = list(range(ncol))
             rng.shuffle(perm)
             pres["perm"] = perm
@@ -409,14 +438,14 @@ def tp_variables(world, prog):
     return list(dict.fromkeys(out))
 
 
-def gen_extract_ops(rng, name, world, tier, prog):
+def gen_extract_ops(rng, name, world, tier, prog, nmin=2, nmax=6):
     ops = []
     q = W.effective_qha(world)
     vars_real = tp_variables(world, prog)
     stubs = [s["var"] for s in world.get("stubs", [])]
     t_grid = [q["T_MIN"] + k * q["DT"] for k in range(q["NT"])]
     p_grid = [q["P_MIN"] + j * q["DELTA_P"] for j in range(q["NTV"])]
-    for _ in range(rng.randint(2, 6)):
+    for _ in range(rng.randint(nmin, nmax)):
         # variables of one request come from one family of tables (same grid); mixing grids is legal but
         # leaves nothing to check
         pool = stubs if (stubs and (not vars_real or rng.random() < 0.35)) else vars_real
@@ -467,7 +496,7 @@ def gen_extract_ops(rng, name, world, tier, prog):
                 for cn in cols:
                     row.append({"P": p, "T": t}.get(cn, round(rng.uniform(0, 2900), 3)))
                 pts.append(row)
-            gname = f"geotherm_{name.lower()}{len(ops)}.txt"
+            gname = f"geotherm_{name.lower()}{len(prog)}_{len(ops)}.txt"
             ops.append({"op": "cli.geotherm", "geotherm": gname, "columns": cols, "points": pts, "variables": variables,
                         "hide_header": rng.random() < 0.15, "abs": rng.random() < 0.5})
     return ops
@@ -479,6 +508,8 @@ def gen_stub_tables(rng, name, world, n):
     stubs = []
     for k in range(n):
         nt, npp = rng.randint(5, 9), rng.randint(6, 10)
+        if rng.random() < 0.3:
+            nt, npp = rng.randint(10, 18), rng.randint(11, 20)     # large enough for "far from both ends of the geotherm" to exist
         t0, dt = rng.choice([0.0, 300.0]), rng.choice([50.0, 100.0, 12.5])
         p0, dp = rng.choice([0.0, 5.0]), rng.choice([1.0, 2.5, 10.0])
         T = [t0 + i * dt for i in range(nt)]
@@ -622,7 +653,7 @@ def gen_scenario(prop, seed, tier, faults_enabled=None, nclients=None, segments_
     names = ["A", "B", "C"][:nclients]
     worlds = {}
     for n in names:
-        if n != "A" and prop in ("C12", "C14", "C15") and worlds["A"]["valid"] and rng.random() < 0.45:
+        if n != "A" and prop in ("C12", "C14", "C15", "C19") and worlds["A"]["valid"] and rng.random() < 0.45:
             worlds[n] = derive_world(rng, tier, worlds["A"], n, C12_METHODS if prop == "C12" else GOOD_METHODS)
             continue
         kw = {}
@@ -655,6 +686,15 @@ def gen_scenario(prop, seed, tier, faults_enabled=None, nclients=None, segments_
                 worlds[n]["datadir"] = "d" + n.lower()
             worlds[n]["cwd"] = "ws"
     programs = {n: gen_program(rng, prop, n, worlds[n], tier, no_chdir=bool(segments)) for n in names}
+    if prop == "C19" and nclients > 1 and len({worlds[n]["cwd"] for n in names}) == 1:
+        # one directory collecting the results of several runs: a request may name tables of different runs (different grids)
+        for n in names:
+            others = [v for m in names if m != n for v in tp_variables(worlds[m], programs[m])]
+            for op in programs[n]:
+                if op["op"] in ("cli.extract", "cli.geotherm") and others and rng.random() < 0.35:
+                    for v in rng.sample(others, min(len(others), rng.randint(1, 2))):
+                        if v not in op["variables"]:
+                            op["variables"].insert(rng.randrange(len(op["variables"]) + 1), v)
     if segments:
         for p in programs.values():     # the cwd is process-global and shared inside a segment: settings by absolute path
             for op in p:
